@@ -262,3 +262,105 @@ META["C37"] = {
     "design_ref": "DESIGN.md section 5 C37",
     "engine": "E3 trace validation + exploration",
 }
+
+
+# ----------------------------------------------------------------------------- C39
+FMT_FILES = ["lang/AstShapes.tla", "lang/FormatRel.tla", "lang/Format.tla", "lang/MC_Format.tla",
+             "lang/MC_Format_q.cfg", "lang/MC_Format_t.cfg", "lang/Trace_Format.tla", "lang/Trace_Format.cfg"]
+
+
+def check_C39(ctx):
+    binary = ctx.build("syntax")
+    # 1. TLC enumerates the comment-placement cases of the model
+    r0 = ctx.tlc(FMT_FILES, "MC_Format", "MC_Format_q.cfg" if ctx.quick else "MC_Format_t.cfg", workers=4, tag="fmt-cases", timeout=3000)
+    # 2. the real formatter on every rendered case; observations recorded
+    of = os.path.join(ctx.work, "obs.ndjson")
+    df = os.path.join(ctx.work, "details.ndjson")
+    ctx.run([binary, "fmt", of, df, os.path.join(r0.dir, "tlc.out")], timeout=6000)
+    rows = read_ndjson(df)
+    summ = [r for r in rows if r.get("summary")]
+    if not summ:
+        raise Infra("fmt driver wrote no summary")
+    summ = summ[0]
+    det = [r for r in rows if not r.get("summary")]
+    if summ["observations"] < 1000 or summ["observations"] != len(det):
+        raise Infra("too few observations: %s" % json.dumps({k: v for k, v in summ.items() if k != "samples"}))
+    # 3. TLC judges every observation with the relation of FormatRel.tla (chunks in parallel)
+    nchunks = 4 if ctx.quick else 8
+    obs = []
+    with open(of) as fh:
+        obs = [ln for ln in fh if ln.strip()]
+    per = (len(obs) + nchunks - 1) // nchunks
+
+    def judge(k):
+        part = obs[k * per:(k + 1) * per]
+        if not part:
+            return k, []
+        d = os.path.join(ctx.work, "judge-%d" % k)
+        os.makedirs(d, exist_ok=True)
+        with open(os.path.join(d, "obs.ndjson"), "w") as fh:
+            fh.writelines(part)
+        res = ctx.tlc(FMT_FILES + [os.path.join(d, "obs.ndjson")], "Trace_Format", "Trace_Format.cfg", workers=1,
+                      tag="fmt-judge%d" % k, timeout=3000, count=False)
+        if res.distinct != len(part) + 1:
+            raise Infra("judge %d consumed %d of %d observations\n%s" % (k, res.distinct - 1, len(part), res.out[-1500:]))
+        bad = {}
+        for ln in res.lines:
+            m = re.match(r'^<<"BAD", (\d+), \{(.*?)\}, \{(.*?)\}>>', ln)
+            if m:
+                reasons = [x.strip().strip('"') for x in m.group(2).split(",") if x.strip()]
+                lost = [x.strip().strip('"') for x in m.group(3).split(",") if x.strip()]
+                bad[k * per + int(m.group(1))] = (reasons, lost)
+        return k, bad
+    with cf.ThreadPoolExecutor(max_workers=min(nchunks, 8)) as ex:
+        judged = list(ex.map(judge, range(nchunks)))
+    nbad = 0
+    for k, bad in judged:
+        for i, (reasons, lost) in sorted(bad.items()):
+            d = det[i - 1]
+            if d["id"] != i:
+                raise Infra("observation / detail files out of step at %d" % i)
+            nbad += 1
+            poss = d["pos"].split(" & ")
+            lostpos = " & ".join(poss[int(t[1:]) - 1] for t in sorted(lost) if t[1:].isdigit() and int(t[1:]) <= len(poss))
+            for r in reasons:
+                sig = {"reason": r, "form": d["form"], "parent": d["parent"], "pos": d["pos"], "lostpos": lostpos,
+                       "kinds": d["kinds"], "layout": d["layout"], "opt": d["opt"], "comments": len(poss)}
+                tail = {"ast-changed": "AST difference: " + d.get("astdiff", ""),
+                        "output-does-not-parse": "parse error: " + d.get("astdiff", ""),
+                        "comment-lost": "lost: %s (at %s)" % (",".join(lost), lostpos),
+                        "second-pass-error": "second pass: " + d.get("err2msg", ""),
+                        "not-idempotent": "second pass output:\n" + d.get("out2", "")}.get(r, "")
+                ctx.report(sig, "formatter, form %s in %s, comment(s) %s at %s, layout %s, options #%d: %s\ninput:\n%s\noutput:\n%s\n%s"
+                           % (d["form"], d["parent"], d["kinds"], d["pos"], d["layout"], d["opt"], r, d["src"], d.get("out", ""), tail),
+                           {"source": d["src"], "options_id": d["opt"], "output": d.get("out"), "reason": r})
+    for s in summ.get("samples", [])[:4]:
+        ctx.add_sample({"form": s["form"], "position": s["pos"], "kinds": s["kinds"], "layout": s["layout"], "options": s["opt"],
+                        "input": s["src"], "output": s.get("out", "")})
+    return ctx.finish({
+        "states": r0.distinct, "transitions": r0.generated,
+        "cases_enumerated_by_tlc": summ["cases"],
+        "traces_validated_against_impl": summ["observations"],
+        "evaluations": summ["observations"],
+        "observations_judged_by_tlc": len(obs),
+        "not_conforming": nbad,
+        "formatter_errors_allowed_outcome": summ["format_errors"],
+        "skipped": {"form_has_no_such_gap": summ["no_such_gap"], "input_rejected_by_parser": summ["input_rejected_by_parser"],
+                    "inserted_text_not_a_comment": summ["inserted_text_is_not_a_comment"]},
+        "distinct_nontrivial": summ["distinct_positions"],
+        "rule": "distinct (form, neighbouring tokens of the gap) syntactic positions at which a comment was placed, formatted twice "
+                "and judged; forms = signatures of AstShapes.tla",
+        "forms": summ["forms"], "option_combinations": summ["options"],
+        "exhaustive": True,
+    }, assumptions=["comments of a source = line-comment tokens and (nested) block-comment token runs of the real lexer",
+                    "AST equality as in C38, import declarations compared as a sorted list",
+                    "a case whose rendered input the parser rejects is outside the property's quantifier (counted, not judged)"])
+
+
+META["C39"] = {
+    "level_text": "TLC enumerates the comment-placement model of Format.tla: every syntactic form of the AstShapes algebra (in the canonical context of its sort; thorough: also inside every slot of every other form) x every gap between the tokens of its concrete syntax x comment kind (block, line, doc-line, doc-block; unique token per comment) x layout (inline, own line, blank line before/after, semicolon before/after) x formatter option combination (4 quick, all 72 thorough), and pairs of gaps. The driver renders each case, runs the real formatter twice and records an observation (error, output parses, AST equal up to import order, comment lists of input and output from the real token stream, second-pass result); TLC then judges every observation with the relation Conforms of FormatRel.tla (error allowed; otherwise same AST, equal comment multisets with unchanged texts, fixed point) and names the reason of each non-conforming one.",
+    "level_note": "Trusted: TLC, the renderer (inputs the parser rejects are counted and skipped), the lexer for comment extraction (C37). Bounded: one or two comments per program, representative identifiers.",
+    "technique": "TLA+ spec (Format.tla / FormatRel.tla) enumerated and evaluated by TLC; spec cases replayed through the real formatter, observations judged by TLC (Trace_Format.tla)",
+    "design_ref": "DESIGN.md section 5 C39",
+    "engine": "E4 enumeration + E3 relational trace validation",
+}
